@@ -484,9 +484,14 @@ package message
 //@   ghost atomic
 //@   nopanic
 //@   ensures result == r.closed [reads-the-flag-under-its-lock]
+//@   ensures result ==> closed(r.closingInProgressCh) && closed(r.closedCh) [a-closed-router-has-both-close-channels-closed]
 
 //@ func (*Router).watchAllHandlersStopped$1
-//@   requires r != nil
+//@   requires r != nil && routerBuilt(r) && r.logger != nil && ctx != nil
+//@   nopanic
+//@   ensures closed(r.closedCh) || closed(r.closingInProgressCh) [the-watcher-ends-only-when-the-router-is-closed-or-closing]
+//@   ensures ncalls(RCLOSE) <= old(ncalls(RCLOSE)) + 1 [it-closes-the-router-at-most-once]
+//@   assert @call:(*Router).Close: ncalls("(*Router).IsClosed") == old(ncalls("(*Router).IsClosed")) + 1 [it-closes-the-router-only-after-every-receive-loop-ended-and-the-router-was-seen-open]
 
 //@ func (*Router).watchAllHandlersStopped
 //@   requires r != nil && r.handlersLock != nil
